@@ -1,5 +1,5 @@
 from bardolph.parser.sub_parser import SubParser
-from bardolph.parser.token import Assoc
+from bardolph.parser.token import Assoc, TokenTypes
 from bardolph.vm.vm_codes import OpCode, Operator
 
 
@@ -25,7 +25,9 @@ class ExpressionParser(SubParser):
         return True
 
     def _atom(self) -> bool:
-        if str(self.current_token) == '(':
+        # A quoted string can contain the same text as a mark.
+        is_mark = self.current_token.is_a(TokenTypes.MARK)
+        if is_mark and str(self.current_token) == '(':
             self.next_token()
             if not self.expression():
                 return False
@@ -33,8 +35,8 @@ class ExpressionParser(SubParser):
                 return self.token_error('Unmatched parenthesis: {}')
             return self.next_token()
 
-        uminus = str(self.current_token) == '-'
-        if str(self.current_token) in '+-':
+        uminus = is_mark and str(self.current_token) == '-'
+        if is_mark and str(self.current_token) in '+-':
             self.next_token()
             if not self._atom():
                 return False
